@@ -110,18 +110,24 @@ func parseCommaRules(input string) ([]rule, error) {
 	blockStart := 0
 	blockCounter := 0
 	comment := false
+	quoted := false
 	aare := false
 	canHaveInlineComment := false
 	size := len(input)
 	for idx, r := range input {
 		switch r {
-		case tokOPENBRACE, tokOPENBRACKET, tokOPENPAREN:
+		case '"':
 			if !comment {
+				quoted = !quoted // Nothing between quotes separates rules or opens a block
+			}
+
+		case tokOPENBRACE, tokOPENBRACKET, tokOPENPAREN:
+			if !comment && !quoted {
 				blockCounter++
 			}
 
 		case tokCLOSEBRACE, tokCLOSEBRACKET, tokCLOSEPAREN:
-			if !comment {
+			if !comment && !quoted {
 				blockCounter--
 			}
 
@@ -148,7 +154,7 @@ func parseCommaRules(input string) ([]rule, error) {
 			canHaveInlineComment = false
 
 		case tokCOLON:
-			if blockCounter == 0 && !comment {
+			if blockCounter == 0 && !comment && !quoted {
 				if idx+1 < size && !strings.ContainsRune(" \n", rune(input[idx+1])) {
 					// Colon in AARE, it is valid, not a separator
 					aare = true
